@@ -147,6 +147,7 @@ func runC20(c *Ctx) {
 	c20L6(c, li)
 	wsContract(c, "C20.L8")
 	c20ReusedBuffer(c)
+	c20DeepCopy(c)
 	commaOkDeref(c, "C20.L9", pkgFuncs(c.P, "pkg/gossip", "server/cluster", "server/upstream", "server/gossip", "server/proxy"), 8)
 	// no reflection / unsafe in module packages (VTA soundness assumption)
 	for _, pk := range p.Pkgs {
@@ -808,4 +809,106 @@ func c20ReusedBuffer(c *Ctx) {
 		}
 	}
 	c.note("C20.L10: %d (loop-refilled buffer, goroutine) pairs examined", n)
+}
+
+// c20DeepCopy (C20.L3b): cluster.Node.Copy is what every reader outside
+// State.mu receives; its map field must be a fresh map (or nil), never the
+// receiver's own map - a shallow copy shares the live Endpoints map with
+// writers that hold the lock, and the readers iterate it without.
+func c20DeepCopy(c *Ctx) {
+	p := c.P
+	fn := p.Func(clPkg, "Node.Copy")
+	endp := p.Field(clPkg, "Node", "Endpoints")
+	if fn == nil || endp == nil {
+		c.fail("C20.anchor", "cluster.Node.Copy", token.NoPos, "not found")
+		return
+	}
+	c.analysed(fnName(fn))
+	recv := ssa.Value(fn.Params[0])
+	bad := ""
+	n := 0
+	var fresh func(v ssa.Value, d int) bool
+	fresh = func(v ssa.Value, d int) bool {
+		v = strip(v)
+		if d > 6 {
+			return false
+		}
+		switch x := v.(type) {
+		case *ssa.MakeMap:
+			return true
+		case *ssa.Const:
+			return x.IsNil()
+		case *ssa.Phi:
+			for _, e := range x.Edges {
+				if !fresh(e, d+1) {
+					return false
+				}
+			}
+			return true
+		case *ssa.Call:
+			nm := commonName(&x.Call)
+			return nm == "maps.Clone" || nm == "maps.Collect"
+		case *ssa.UnOp:
+			if al, ok := x.X.(*ssa.Alloc); ok {
+				ok2 := true
+				for _, r := range *al.Referrers() {
+					if st, ok := r.(*ssa.Store); ok && st.Addr == ssa.Value(al) && !fresh(st.Val, d+1) {
+						ok2 = false
+					}
+				}
+				return ok2
+			}
+		}
+		return false
+	}
+	for _, r := range returnsOf(fn) {
+		rv := strip(returnValues(r)[0])
+		al, ok := rv.(*ssa.Alloc)
+		if !ok {
+			bad = "Copy does not return a newly allocated Node"
+			continue
+		}
+		var whole ssa.Instruction
+		var freshStores []ssa.Instruction
+		for _, r2 := range *al.Referrers() {
+			switch x := r2.(type) {
+			case *ssa.Store:
+				// whole-struct copy: *cp = *n
+				if x.Addr == ssa.Value(al) {
+					if u, ok := strip(x.Val).(*ssa.UnOp); ok && strip(u.X) == recv {
+						whole = x
+					}
+				}
+			case *ssa.FieldAddr:
+				if fv, _ := fieldVarOf(x); fv == endp {
+					for _, rr := range *x.Referrers() {
+						if st, ok := rr.(*ssa.Store); ok {
+							n++
+							if !fresh(st.Val, 0) {
+								bad = "the copy's Endpoints is not a fresh map"
+							} else {
+								freshStores = append(freshStores, st)
+							}
+						}
+					}
+				}
+			}
+		}
+		if whole != nil {
+			n++
+			// sharing is only undone if a fresh map is stored on every path from the struct copy to the return
+			isFresh := func(i ssa.Instruction) bool {
+				for _, f := range freshStores {
+					if f == i {
+						return true
+					}
+				}
+				return false
+			}
+			if everyPathFrom(whole, isFresh, nil, true) != nil {
+				bad = "the copy is a whole-struct copy of the receiver and its Endpoints is not replaced by a fresh map on every path"
+			}
+		}
+	}
+	c.check(bad == "" && n > 0, "C20.L3", fnName(fn)+"/deep-copy", fn.Pos(), "the returned node owns a fresh Endpoints map", "Node.Copy is shallow ("+bad+"): snapshots handed out by State share the live Endpoints map, which is written under State.mu and read (ranged, JSON-encoded) without it")
 }
